@@ -37,6 +37,14 @@ REQUIRE = {
     "B_pending_wrap_states": 400,
     "S_sgr_ops_compared": 150,
     "directed_cases": 10,
+    "A_mega_sequences_fed": 20,
+    "A_params_over_4300_digits": 10,
+    "A_mega_split_across_feeds": 10,
+    "K_streams_fed_three_ways": 300,
+    "K_streams_with_charset_switch_or_ris": 200,
+    "U_ops_compared": 1500,
+    "U_charset_switches": 500,
+    "U_cases_agree_all_feed_modes": 100,
 }
 RULE = (
     "part A: op histories (feed chunk | resize to any size>=1x1 | scroll view | focus) over byte streams from a grammar of "
@@ -46,6 +54,12 @@ RULE = (
     "LF, BS, CUP/HVP, CUx, EL, ED, ICH, DCH, IL, DL, DECSTBM, IND, RI, NEL, SGR, DSR) on 1x1..40x12 terminals, per-op chunking, "
     "driven in lock-step with the faithful and the all-known-quirks model; part S: sequences of 1-6 SGR commands (basic/bright/"
     "256/24-bit colours, bold, underline, blink, reverse and their resets) each followed by one glyph whose style is compared; "
+    "part A also inserts 'mega' sequences: one parameter of 4299..20000 digits or a list of 500..6000 parameters in CSI / "
+    "?-CSI / OSC / DCS-like / charset sequences, whole or split over 2-7 feeds; part K: the same stream (A grammar plus ESC % G "
+    "/ ESC % 8 / ESC % @ / ESC c immediately followed by multibyte UTF-8 and 8-bit bytes) fed whole, bytewise and in random "
+    "pieces under all six encodings, every observable compared; part U: model-aware ASCII / multibyte / 8-bit text with main "
+    "charset switches and RIS on >=2-column terminals under utf8, utf-8, narrow and wide encodings, fed per op, in one call "
+    "and bytewise, compared with the model; "
     "a case = (part, size, encoding, focus, op list); distinct = distinct such tuples; non-trivial = at least one op executed"
 )
 ASSUMES = [
@@ -60,7 +74,15 @@ ASSUMES = [
     "of regions that do not start at row 0; xterm would not; the statement does not forbid it, so it is not reported)",
     "part B uses the documented spelling urwid.set_encoding('utf8'); with 'utf-8' TermCanvas does not assemble UTF-8 at all "
     "(documented in the Terminal docstring), part A still runs under 'utf-8'",
-    "counts above 1e5 are not generated (ICH/DCH/IL/DL loop per count: denial of service, not a statement violation)",
+    "counts between 1e5 and what python's int() accepts (<= 4300 digits) are not sent to ICH/DCH/IL/DL (they loop per count: "
+    "denial of service, not a statement violation); parameters of 4299..20000 digits go to every other final, and those of "
+    ">= 4301 digits (which int() refuses, so TermCanvas treats them as missing) to all finals",
+    "chunking invariance (part K): a terminal is a function of the serial byte stream, so the same bytes cut differently "
+    "must give the same grid, cursors, modes, region, scrollback, replies, charset/attribute and carried parser state; "
+    "streams on which some chunking raises are left to part A",
+    "part U: under set_encoding('utf8') the main character set is pinned to UTF-8 (ESC % @ has no effect, as in xterm "
+    "with utf8 'always'); under any other spelling/encoding ESC % G / ESC % 8 select UTF-8, ESC % @ and RIS return to one "
+    "cell per 8-bit byte; an assembled character is stored re-encoded in the global encoding ('?' if not encodable)",
     "cursor position after resize is only required to be inside the grid (the statement says nothing about preserving it)",
 ]
 
@@ -258,6 +280,13 @@ def apply_a_op(t, stub, op):
     k = op[0]
     if k == "feed":
         t.addstr(op[1])
+    elif k == "mega":
+        # compact form of a very long sequence: head + unit*count + tail, fed in nchunks nearly equal pieces
+        data = mega_bytes(op)
+        n = max(1, min(op[5], len(data)))
+        size = -(-len(data) // n)
+        for i in range(0, len(data), size):
+            t.addstr(data[i : i + size])
     elif k == "resize":
         t.resize(op[1], op[2])
     elif k == "scroll":
@@ -271,6 +300,10 @@ def apply_a_op(t, stub, op):
         raise AssertionError(op)
 
 
+def mega_bytes(op):
+    return op[1] + op[2] * op[3] + op[4]
+
+
 def run_a(ctx, wit, collect=None, stop_on=None):
     """execute one part-A history; every op is followed by the invariant oracle.  The history is continued after a
     violation (each signature is recorded once, with the index of the op where it first appeared).  -> {sig: (msg, i)}"""
@@ -281,7 +314,7 @@ def run_a(ctx, wit, collect=None, stop_on=None):
         try:
             apply_a_op(t, stub, op)
         except Exception as ex:  # noqa: BLE001
-            sig = f"C15|A|{op[0]}|raise:{type(ex).__name__}|at={innermost_vterm_frame(ex)}"
+            sig = f"C15|A|{'feed' if op[0] == 'mega' else op[0]}|raise:{type(ex).__name__}|at={innermost_vterm_frame(ex)}"
             sigs.setdefault(sig, (f"{type(ex).__name__}: {ex} in {innermost_vterm_frame(ex)} at op {i}", i))
             if stop_on is not None and stop_on in sigs:
                 break
@@ -292,6 +325,12 @@ def run_a(ctx, wit, collect=None, stop_on=None):
             ctx.count("A_ops_checked")
             if op[0] == "resize":
                 ctx.count("A_resizes")
+            elif op[0] == "mega":
+                ctx.count("A_mega_sequences_fed")
+                if op[3] * len(op[2]) >= 4301 and op[2].isdigit():
+                    ctx.count("A_params_over_4300_digits")
+                if op[5] > 1:
+                    ctx.count("A_mega_split_across_feeds")
         bad = invariants(t, stub, nrep, ctx if collect is None else None)
         for kind, msg in bad:
             sig = f"C15|A|invariant|{kind}"
@@ -327,6 +366,18 @@ def shrink_a(wit, sig, budget=300):
                 ops = cand
                 changed = True
             i -= 1
+    # simplify mega ops: one chunk, canonical lengths, plain head/tail
+    for idx in range(len(ops)):
+        if ops[idx][0] != "mega":
+            continue
+        op = list(ops[idx])
+        if op[5] != 1 and holds(ops[:idx] + [[*op[:5], 1]] + ops[idx + 1 :]):
+            op = [*op[:5], 1]
+        for c in (1, 10, 1000, 4300, 4301):
+            if c < op[3] and holds(ops[:idx] + [[*op[:3], c, *op[4:]]] + ops[idx + 1 :]):
+                op = [*op[:3], c, *op[4:]]
+                break
+        ops[idx] = op
     # merge feeds / shrink bytes
     for idx in range(len(ops)):
         if ops[idx][0] != "feed":
@@ -458,6 +509,37 @@ def gen_token(rng, w, h, enc):
     return b"\x1b" + bytes([rng.choice([*b"cDEHMZ78>=NOPX^_\\", rng.randint(0x20, 0x7E), rng.randint(0, 255)])])
 
 
+MEGA_LENGTHS = [4299, 4300, 4301, 4302, 5000, 6000, 10000, 20000]
+CSI_FINALS_NO_LOOP = "ABCDEFGHJKXacdefghlmnqrsu`"  # finals whose cost does not grow with the parameter value
+
+
+def gen_mega(rng):
+    """a sequence with a parameter of thousands of digits (python's int() refuses > 4300 digits), or a very long
+    parameter list, in CSI / ?-CSI / OSC / DCS-like strings; whole or split across feeds"""
+    r = rng.random()
+    n = rng.choice(MEGA_LENGTHS)
+    digit = rng.choice([b"1", b"7", b"9", b"0", b"3"])
+    csi = rng.choice([b"\x1b[", b"\x1b[", b"\x9b"])
+    chunks = rng.choice([1, 1, 2, 2, 3, 7])
+    if r < 0.45:
+        q = rng.choice([b"", b"", b"?", b"1;", b"?25;", b";"])
+        # a parameter that int() still accepts is an astronomically large count: keep those away from the finals that
+        # loop per count (ICH/DCH/IL/DL), see ASSUMES
+        finals = CSI_FINALS_KNOWN if (n >= 4301 and digit != b"0") else CSI_FINALS_NO_LOOP
+        tail = rng.choice([b"", b"", b";5", b";", b";0;0"]) + rng.choice(finals).encode()
+        return ["mega", csi + q, digit, n, tail, chunks]
+    if r < 0.60:
+        cnt = rng.choice([500, 2000, 4301, 6000])
+        unit = rng.choice([b"1;", b";", b"0;", b"38;5;", b"31;"])
+        return ["mega", csi + rng.choice([b"", b"?"]), unit, cnt, rng.choice([b"m", b"h", b"l", b"H", b"r", b"n", b"m"]), chunks]
+    if r < 0.80:
+        head = rng.choice([b"\x1b]", b"\x1b]0;", b"\x1b]2;t", b"\x1b]P"])
+        return ["mega", head, digit, n, rng.choice([b"\x07", b"\x1b\\", b";x\x07", b""]), chunks]
+    if r < 0.90:
+        return ["mega", rng.choice([b"\x1bP", b"\x1b_", b"\x1b^", b"\x1bX"]), digit, n, rng.choice([b"\x1b\\", b"q\x1b\\", b""]), chunks]
+    return ["mega", rng.choice([b"\x1b(", b"\x1b%", b"\x1b#", b"\x1b"]), digit, n, b"A", chunks]
+
+
 def rand_size(rng, big=True):
     r = rng.random()
     if r < 0.30:
@@ -498,6 +580,12 @@ def gen_a_case(rng, quick):
             ops.append(["scroll_reset"])
         elif r < 0.21:
             ops.append(["focus", rng.random() < 0.5])
+    if rng.random() < 0.08:
+        pos = rng.randint(0, len(ops))
+        extra = [gen_mega(rng)]
+        if rng.random() < 0.6:  # whatever state the long sequence leaves behind meets a following sequence
+            extra.append(["feed", rng.choice([b"\x1b[5C", b"m", b"H", b"\x1b[6n", b"x\x1b[2J", b"\x07ok"])])
+        ops[pos:pos] = extra
     return {"part": "A", "w": w, "h": h, "focus": focus, "enc": enc, "ops": ops}
 
 
@@ -1385,6 +1473,329 @@ def replay_b(ctx, wit):
         ctx.violation(one[0], one[1], wit)
 
 
+# =============================================================================== part K: chunking invariance
+# A terminal consumes a serial byte stream; where the feeds are cut cannot matter.  The same stream is fed whole, one
+# byte per addstr() and in random pieces; every observable (and the parser's carried state) must agree.
+
+
+def k_snapshot(t, stub):
+    cs = t.charset
+    return {
+        "grid": tuple(tuple(r) for r in t.term),
+        "term_cursor": tuple(t.term_cursor),
+        "canvas_cursor": t.cursor,
+        "modes": tuple(sorted(vars(t.modes).items())),
+        "scroll_region": (t.scrollregion_start, t.scrollregion_end),
+        "scrollback": tuple(tuple(r) for r in t.scrollback_buffer),
+        "replies": tuple(stub.out),
+        "titles_beeps_leds": (tuple(stub.titles), stub.beeps, tuple(stub.ledl)),
+        "charset": (tuple(cs._g), cs.active, cs.current, cs._sgr_mapping),
+        "attrspec": t.attrspec,
+        "tabstops": tuple(t.tabstops),
+        "parser_state": (t.within_escape, t.parsestate, bytes(t.escbuf), t.utf8_eat_bytes),
+    }
+
+
+def k_pieces(stream, cuts):
+    """cuts: None = whole, 1 = bytewise, list = piece sizes (cycled)"""
+    if cuts is None:
+        return [stream]
+    if cuts == 1:
+        return [stream[i : i + 1] for i in range(len(stream))]
+    out, i, j = [], 0, 0
+    while i < len(stream):
+        k = max(1, cuts[j % len(cuts)])
+        out.append(stream[i : i + k])
+        i += k
+        j += 1
+    return out
+
+
+def exec_k(wit):
+    """-> None | ('raise', msg) | (component, msg)"""
+    snaps = []
+    for cuts in (None, 1, wit["cuts"]):
+        t, stub = new_term(wit["w"], wit["h"], wit["focus"], wit["enc"])
+        try:
+            for piece in k_pieces(wit["stream"], cuts):
+                t.addstr(piece)
+        except Exception as ex:  # noqa: BLE001  (part A judges exceptions)
+            return ("raise", f"{type(ex).__name__} in {innermost_vterm_frame(ex)}")
+        snaps.append(k_snapshot(t, stub))
+    names = ("whole", "bytewise", f"pieces{wit['cuts']}")
+    for i in (1, 2):
+        for comp in snaps[0]:
+            if snaps[0][comp] != snaps[i][comp]:
+                a, b = snaps[0][comp], snaps[i][comp]
+                if comp in ("grid", "scrollback"):
+                    y = next((y for y, (ra, rb) in enumerate(zip(a, b)) if ra != rb), None)
+                    if y is not None:
+                        a, b = b"".join(c[2] for c in a[y]), b"".join(c[2] for c in b[y])
+                        return (comp, f"{comp} row {y}: fed {names[0]} -> {a!r}, fed {names[i]} -> {b!r}")
+                return (comp, f"{comp}: fed {names[0]} -> {a!r}, fed {names[i]} -> {b!r}"[:600])
+    return None
+
+
+def shrink_k(wit, comp, budget=400):
+    n = [0]
+
+    def holds(stream):
+        n[0] += 1
+        if n[0] > budget or not stream:
+            return False
+        r = exec_k(dict(wit, stream=stream))
+        return r is not None and r[0] == comp
+
+    data = wit["stream"]
+    step = max(1, len(data) // 2)
+    while step >= 1 and n[0] <= budget:
+        i = 0
+        while i < len(data) and len(data) > 1:
+            cand = data[:i] + data[i + step :]
+            if holds(cand):
+                data = cand
+            else:
+                i += step
+        if step == 1:
+            break
+        step //= 2
+    out = dict(wit, stream=data)
+    if exec_k(dict(out, cuts=[len(data)])) is not None:
+        out["cuts"] = [len(data)]
+    return out
+
+
+SWITCHES = [b"\x1b%G", b"\x1b%G", b"\x1b%@", b"\x1b%@", b"\x1b%8", b"\x1bc"]
+HIGH_AFTER_SWITCH = ["ж", "λ€", "é", "漢", "Щx", "ñ"]
+
+
+def gen_k_case(rng):
+    w, h = rand_size(rng, big=False)
+    enc = rng.choice(ENCODINGS_A)
+    toks = []
+    for _ in range(rng.randint(1, 10)):
+        r = rng.random()
+        if r < 0.35:
+            # a main-charset switch (or RIS) immediately followed by multibyte UTF-8 and by 8-bit bytes
+            toks.append(rng.choice(SWITCHES))
+            for _ in range(rng.randint(1, 3)):
+                if rng.random() < 0.6:
+                    toks.append(rng.choice(HIGH_AFTER_SWITCH).encode("utf-8"))
+                else:
+                    toks.append(bytes(rng.randint(0xA0, 0xFF) for _ in range(rng.randint(1, 3))))
+                if rng.random() < 0.4:
+                    toks.append(bytes([rng.randint(0x20, 0x7E)]))
+        else:
+            toks.append(gen_token(rng, w, h, enc))
+    stream = b"".join(toks)[:240]
+    cuts = [rng.choice([1, 2, 3, 4, 5, 7, 11, 16]) for _ in range(rng.randint(1, 4))]
+    return {"part": "K", "w": w, "h": h, "focus": rng.random() < 0.5, "enc": enc, "stream": stream, "cuts": cuts}
+
+
+def run_k(ctx, wit, shrunk_seen):
+    r = exec_k(wit)
+    ctx.case(("K", wit["w"], wit["h"], wit["enc"], wit["stream"], wit["cuts"]), nontrivial=bool(wit["stream"]))
+    if r is not None and r[0] == "raise":
+        ctx.count("K_skipped_stream_raises")
+        return
+    ctx.count("K_streams_fed_three_ways")
+    if any(sw in wit["stream"] for sw in (b"\x1b%G", b"\x1b%@", b"\x1b%8", b"\x1bc")):
+        ctx.count("K_streams_with_charset_switch_or_ris")
+        ctx.count(f"K_switch_enc:{wit['enc']}")
+    if r is None:
+        return
+    if shrunk_seen.get("K:" + r[0], 0) < 3 and not ctx.replaying:
+        shrunk_seen["K:" + r[0]] = shrunk_seen.get("K:" + r[0], 0) + 1
+        small = shrink_k(wit, r[0])
+        r2 = exec_k(small)
+        if r2 is not None and r2[0] == r[0]:
+            wit, r = small, r2
+    ctx.violation(f"C15|K|chunking-changes-result|differs={r[0]}", r[1], wit)
+
+
+# =============================================================================== part U: main character set switching
+# differential against vt.py on: ASCII / multibyte UTF-8 (while UTF-8 is selected) / 8-bit bytes (while it is not),
+# ESC % G, ESC % 8, ESC % @, RIS, CR, LF on terminals at least 2 columns wide.  The same op stream is fed op by op
+# (compared after every op), in ONE addstr() call and one byte per call (compared at the end).
+
+U_MB = "жЩλΩ€ğ"  # width 1, all above U+00FF (so a cell holding one is distinguishable from a raw 8-bit byte)
+U_RAW = [b for b in range(0xA1, 0x100) if b != 0xAD]
+U_ENC = ["utf8", "utf-8", "utf-8", "ascii", "iso8859-1", "koi8-r", "euc-jp"]
+
+
+def u_model(case):
+    if case["enc"] == "utf8":
+        return VT(case["w"], case["h"], utf8=True, lock_utf8=True, quirks=BASE_QUIRKS)
+    return VT(case["w"], case["h"], utf8=False, encoding="latin-1", quirks=BASE_QUIRKS)
+
+
+def u_render(op):
+    k = op[0]
+    if k == "ascii":
+        return op[1].encode("ascii")
+    if k == "mb":
+        return op[1].encode("utf-8")
+    if k == "raw":
+        return bytes(op[1])
+    return {"UTF8ON": b"\x1b%G", "UTF8ON8": b"\x1b%8", "UTF8OFF": b"\x1b%@", "RIS": b"\x1bc", "CR": b"\r", "LF": b"\n"}[k]
+
+
+def u_admissible(op, vt):
+    if op[0] == "mb":
+        return vt.utf8
+    if op[0] == "raw":
+        return not vt.utf8
+    if vt.pending_wrap and op[0] == "LF":
+        return False
+    return True
+
+
+def u_expected_bytes(ch, enc):
+    if len(ch) == 1 and ord(ch) < 0x100:
+        return bytes([ord(ch)])
+    return ch.encode("utf-8" if enc in ("utf8", "utf-8") else enc, "replace")
+
+
+def u_compare(t, vt, enc):
+    for y in range(vt.rows):
+        for x in range(vt.cols):
+            exp = u_expected_bytes(vt.cells[y][x].ch, enc)
+            if t.term[y][x][2] != exp:
+                return ("glyph", f"cell ({x},{y}) urwid {t.term[y][x][2]!r} model {vt.cells[y][x].ch!r} = {exp!r}; urwid row {b''.join(c[2] for c in t.term[y])!r} model row {vt.row_text(y)!r}")
+    if tuple(t.term_cursor) != vt.cursor:
+        return ("cursor", f"urwid {tuple(t.term_cursor)} model {vt.cursor}")
+    if len(t.scrollback_buffer) != len(vt.scrollback):
+        return ("scrollback:count", f"urwid {len(t.scrollback_buffer)} model {len(vt.scrollback)}")
+    return None
+
+
+def exec_u(case, modes=("per-op", "whole", "bytewise")):
+    """-> None | (feed mode, kind, msg) ; ('inadmissible',..) when an op does not fit the model's charset state"""
+    enc = case["enc"]
+    vt = u_model(case)
+    stream = b""
+    t = stub = None
+    if "per-op" in modes:
+        t, stub = new_term(case["w"], case["h"], False, enc)
+    for i, op in enumerate(case["ops"]):
+        if not u_admissible(op, vt):
+            return ("inadmissible", "", f"op {i} {op}")
+        data = u_render(op)
+        stream += data
+        vt.feed(data)
+        if t is not None:
+            try:
+                t.addstr(data)
+            except Exception as ex:  # noqa: BLE001
+                return ("per-op", f"raise:{type(ex).__name__}", f"{ex!r} in {innermost_vterm_frame(ex)}")
+            m = u_compare(t, vt, enc)
+            if m:
+                return ("per-op", m[0], f"after op {i} {op}: {m[1]}")
+    for mode in ("whole", "bytewise"):
+        if mode not in modes:
+            continue
+        t, stub = new_term(case["w"], case["h"], False, enc)
+        try:
+            for piece in k_pieces(stream, None if mode == "whole" else 1):
+                t.addstr(piece)
+        except Exception as ex:  # noqa: BLE001
+            return (mode, f"raise:{type(ex).__name__}", f"{ex!r} in {innermost_vterm_frame(ex)}")
+        m = u_compare(t, vt, enc)
+        if m:
+            return (mode, m[0], f"stream {stream!r}: {m[1]}")
+    return None
+
+
+def gen_u_case(rng, ctx=None):
+    w, h = rng.randint(2, 12), rng.randint(1, 5)
+    enc = rng.choice(U_ENC)
+    case = {"part": "U", "w": w, "h": h, "enc": enc, "ops": []}
+    vt = u_model(case)
+    for _ in range(rng.randint(2, 14)):
+        for _try in range(20):
+            r = rng.random()
+            if r < 0.22:
+                op = ["ascii", "".join(rng.choice("abXY01 .-") for _ in range(rng.randint(1, 4)))]
+            elif r < 0.42:
+                op = ["mb", "".join(rng.choice(U_MB) for _ in range(rng.randint(1, 3)))]
+            elif r < 0.60:
+                op = ["raw", [rng.choice(U_RAW) for _ in range(rng.randint(1, 3))]]
+            elif r < 0.70:
+                op = ["UTF8ON"]
+            elif r < 0.75:
+                op = ["UTF8ON8"]
+            elif r < 0.86:
+                op = ["UTF8OFF"]
+            elif r < 0.91:
+                op = ["RIS"]
+            elif r < 0.95:
+                op = ["CR"]
+            else:
+                op = ["LF"]
+            if u_admissible(op, vt):
+                break
+        else:
+            op = ["CR"]
+        case["ops"].append(op)
+        vt.feed(u_render(op))
+    return case
+
+
+def shrink_u(case, mode, kind, budget=300):
+    n = [0]
+
+    def ok(ops):
+        n[0] += 1
+        if n[0] > budget or not ops:
+            return False
+        r = exec_u(dict(case, ops=ops), modes=(mode,))
+        return r is not None and r[0] == mode and r[1] == kind
+
+    ops = [list(o) for o in case["ops"]]
+    i = len(ops) - 1
+    while i >= 0 and len(ops) > 1:
+        cand = ops[:i] + ops[i + 1 :]
+        if ok(cand):
+            ops = cand
+        i -= 1
+    for idx, op in enumerate(ops):
+        if op[0] in ("ascii", "mb", "raw") and len(op[1]) > 1:
+            cand = ops[:idx] + [[op[0], op[1][:1]]] + ops[idx + 1 :]
+            if ok(cand):
+                ops = cand
+    return dict(case, ops=ops)
+
+
+def u_enc_class(enc):
+    return {"utf8": "utf8", "utf-8": "utf-8", "euc-jp": "wide"}.get(enc, "narrow")
+
+
+def run_u(ctx, case, shrunk_seen):
+    r = exec_u(case)
+    ctx.case(("U", case["w"], case["h"], case["enc"], case["ops"]))
+    if r is not None and r[0] == "inadmissible":
+        return
+    ctx.count("U_cases")
+    ctx.count("U_ops_compared", len(case["ops"]))
+    ctx.count("U_charset_switches", sum(1 for o in case["ops"] if o[0] in ("UTF8ON", "UTF8ON8", "UTF8OFF", "RIS")))
+    ctx.count(f"U_enc:{u_enc_class(case['enc'])}")
+    if r is None:
+        ctx.count("U_cases_agree_all_feed_modes")
+        return
+    mode, kind = r[0], r[1]
+    key = f"U:{mode}:{kind}"
+    if shrunk_seen.get(key, 0) < 3 and not ctx.replaying:
+        shrunk_seen[key] = shrunk_seen.get(key, 0) + 1
+        small = shrink_u(case, mode, kind)
+        r2 = exec_u(small, modes=(mode,))
+        if r2 is not None and r2[0] == mode and r2[1] == kind:
+            case, r = small, r2
+    sig = f"C15|U|diff|{kind}|feed={mode}|enc={u_enc_class(case['enc'])}"
+    if kind.startswith("raise:"):
+        sig = f"C15|U|{kind}|at={r[2].rsplit(' in ', 1)[-1]}"
+    ctx.violation(sig, f"{kind}: {r[2]}", case)
+
+
 # =============================================================================== directed cases (from the design's probes)
 
 DIRECTED = [
@@ -1399,6 +1810,19 @@ DIRECTED = [
     {"part": "A", "w": 10, "h": 4, "focus": True, "enc": "utf8", "ops": [["feed", b"\x1b[2;3r\x1b[?6h\x1b[5;5H\x1b[6n"], ["resize", 3, 1], ["feed", b"\x1b[6n\n\n"]]},
     {"part": "A", "w": 8, "h": 3, "focus": False, "enc": "utf8", "ops": [["feed", b"\x1b[3g\t\x1bH"], ["resize", 30, 3], ["feed", b"\x1b[1;25H\x1bH\t\x1b[g"]]},
     {"part": "A", "w": 1, "h": 1, "focus": True, "enc": "utf8", "ops": [["feed", b"ab\ncd\x1b[5@\x1b[5P\x1b[5L\x1b[5M\x1bM\x1bD\t\x1b[J\x1b[1J\x1b[2J"]]},
+    {"part": "A", "w": 10, "h": 3, "focus": False, "enc": "utf8", "ops": [["mega", b"\x1b[", b"7", 6000, b"C", 2], ["feed", b"\x1b[5C"]]},
+    {"part": "A", "w": 10, "h": 3, "focus": True, "enc": "ascii", "ops": [["mega", b"\x9b?", b"1", 4301, b"h", 1], ["feed", b"m"]]},
+    {"part": "A", "w": 10, "h": 3, "focus": True, "enc": "utf-8", "ops": [["mega", b"\x1b[1;", b"9", 10000, b";5H", 3], ["mega", b"\x1b[", b"1;", 6000, b"m", 1]]},
+    {"part": "A", "w": 10, "h": 3, "focus": False, "enc": "euc-jp", "ops": [["mega", b"\x1b]0;", b"3", 20000, b"\x07", 2], ["mega", b"\x1bP", b"1", 5000, b"\x1b\\", 1], ["feed", b"\x1b[6n"]]},
+    {"part": "A", "w": 10, "h": 3, "focus": False, "enc": "utf8", "ops": [["mega", b"\x1b[", b"9", 4301, b"@", 1], ["mega", b"\x1b[", b"1", 4302, b"L", 1], ["mega", b"\x1b[", b"1", 4300, b"X", 1]]},
+    {"part": "K", "w": 10, "h": 3, "focus": False, "enc": "utf-8", "stream": b"\x1b%G\xd0\xb6x\x1b%@\xd0\xb6\xe9y\x1bc\xd0\xb6", "cuts": [4, 3]},
+    {"part": "K", "w": 10, "h": 3, "focus": True, "enc": "koi8-r", "stream": b"ab\x1b%8\xe2\x82\xac\xce\xbb\x1b%@\xc0\xff\xa1z", "cuts": [5]},
+    {"part": "K", "w": 6, "h": 2, "focus": False, "enc": "euc-jp", "stream": b"\xa4\xa2\x1b%G\xe6\xbc\xa2\xd0\xb6\x1bc\xa4\xa2\x1b%G\xce\xa9", "cuts": [2, 7]},
+    {"part": "K", "w": 6, "h": 2, "focus": False, "enc": "utf8", "stream": b"\x1b%@\xd0\xb6\xe9\x1b%G\xd0\xb6\x1bc\xce\xbb", "cuts": [3]},
+    {"part": "U", "w": 8, "h": 2, "enc": "utf-8", "ops": [["raw", [0xE9]], ["UTF8ON"], ["mb", "жλ"], ["UTF8OFF"], ["raw", [0xD0, 0xB6]], ["UTF8ON8"], ["mb", "€"], ["RIS"], ["raw", [0xC0]]]},
+    {"part": "U", "w": 8, "h": 2, "enc": "iso8859-1", "ops": [["UTF8ON"], ["mb", "ж"], ["ascii", "a"], ["UTF8OFF"], ["raw", [0xFF, 0xA1]]]},
+    {"part": "U", "w": 8, "h": 2, "enc": "euc-jp", "ops": [["raw", [0xA4, 0xA2]], ["UTF8ON"], ["mb", "жΩ"], ["RIS"], ["raw", [0xA4]]]},
+    {"part": "U", "w": 8, "h": 2, "enc": "utf8", "ops": [["UTF8OFF"], ["mb", "жλ"], ["RIS"], ["mb", "€"]]},
     {"part": "B", "w": 10, "h": 3, "focus": False, "enc": "utf8", "chunk": 0, "ops": [["print", "0123456789"], ["CUP", 1, 10], ["print", "X"]]},
     {"part": "B", "w": 10, "h": 3, "focus": False, "enc": "utf8", "chunk": 0, "ops": [["print", "abcdefghij"], ["CUP", 1, 4], ["ED", 1]]},
     {"part": "B", "w": 1, "h": 3, "focus": False, "enc": "utf8", "chunk": 0, "ops": [["print", "abc"]]},
@@ -1408,7 +1832,11 @@ DIRECTED = [
 
 def run_directed(ctx, wit, shrunk_seen):
     ctx.count("directed_cases")
-    if wit["part"] == "A":
+    if wit["part"] == "K":
+        run_k(ctx, wit, shrunk_seen)
+    elif wit["part"] == "U":
+        run_u(ctx, wit, shrunk_seen)
+    elif wit["part"] == "A":
         sigs = run_a(ctx, wit)
         ctx.case(("A", wit["w"], wit["h"], wit["enc"], wit["focus"], wit["ops"]))
         if sigs:
@@ -1456,6 +1884,10 @@ def run(ctx):
                     ctx.count("B_cases")
                 for _ in range(2):
                     run_s(ctx, gen_s_case(rng))
+                for _ in range(3):
+                    run_k(ctx, gen_k_case(rng), shrunk_seen)
+                for _ in range(3):
+                    run_u(ctx, gen_u_case(rng), shrunk_seen)
     finally:
         util.set_encoding(saved_enc)
     reach.flush(ctx)
@@ -1466,7 +1898,13 @@ def replay(ctx, wit):
     saved_enc = util.get_encoding()
     try:
         wit = dict(wit)
-        if wit.get("part") == "A":
+        if wit.get("part") == "K":
+            wit["cuts"] = list(wit["cuts"])
+            run_k(ctx, wit, {})
+        elif wit.get("part") == "U":
+            wit["ops"] = [list(o) for o in wit["ops"]]
+            run_u(ctx, wit, {})
+        elif wit.get("part") == "A":
             wit["ops"] = [list(o) for o in wit["ops"]]
             sigs = run_a(ctx, wit)
             ctx.case(("A-replay", wit["ops"]))
